@@ -397,7 +397,19 @@ var faultOps = []faultOp{
 		s := sites[rapid.IntRange(0, len(sites)-1).Draw(t, "site")]
 		req := s.req.Type
 		var nt *ref.Type
-		switch rapid.IntRange(0, 3).Draw(t, "how") {
+		switch rapid.IntRange(0, 4).Draw(t, "how") {
+		case 4: // nullable at an inner level (list item, inner list) where the interface says non-null
+			nt = cloneType(req)
+			var cands []*ref.Type
+			for x := nt.Elem; x != nil; x = x.Elem {
+				if x.NonNull {
+					cands = append(cands, x)
+				}
+			}
+			if len(cands) == 0 {
+				return nil, false
+			}
+			cands[rapid.IntRange(0, len(cands)-1).Draw(t, "level")].NonNull = false
 		case 0: // other scalar
 			nt = cloneType(req)
 			b := baseOf(nt)
